@@ -2,6 +2,7 @@ package main
 
 import (
 	"fmt"
+	"runtime/debug"
 	"go/token"
 	"go/types"
 	"os"
@@ -322,7 +323,8 @@ func (e *Engine) VerifyFunc(key string) (res *FuncResult) {
 			case evalErr:
 				res.Err = "spec error: " + x.msg
 			default:
-				panic(r)
+				// an engine failure is reported fail-closed, never as a pass
+				res.Err = fmt.Sprintf("engine panic: %v\n%s", r, debug.Stack())
 			}
 		}
 		res.Obligations = fc.obls
@@ -348,8 +350,8 @@ func (e *Engine) VerifyFunc(key string) (res *FuncResult) {
 	res.HasContract = sp != nil
 	if sp != nil {
 		e.db.UsedKeys["func:"+key] = true
-		if sp.Kind == "assume" {
-			res.Err = "function has an assumed contract and a body: " + key
+		if sp.Kind == "assume" || len(sp.ClausesOf("trusted")) > 0 {
+			res.Err = "function has an assumed / trusted contract and cannot be listed as verified: " + key
 			return
 		}
 		fc.checkOverflow = sp.Has("check", "overflow")
